@@ -26,10 +26,12 @@ class Gen:
         self.r = r
         self.data = data
         self.strs = [k for k, v in data.items() if isinstance(v, str)]
+        self.raw = list(self.strs)
         self.lists = [k for k, v in data.items() if isinstance(v, list) and all(isinstance(x, str) for x in v)]
         self.dicts = [k for k, v in data.items() if isinstance(v, dict)]
         self.nested = [k for k, v in data.items() if isinstance(v, list) and not all(isinstance(x, str) for x in v)]
         self.wild = False
+        self.last_nested = False
         self.nvar = 0
         self.partials: dict[str, str] = {}
         self.scope_strs: list[str] = []   # locally bound string-valued names
@@ -44,6 +46,12 @@ class Gen:
     def svar(self) -> str:
         pool = self.strs + self.scope_strs
         return self.r.choice(pool)
+
+    def cvar(self) -> str:
+        """A variable for a condition: raw render data only.  A condition over a
+        captured / escaped value legitimately differs between the two renders of
+        the origin oracle ('&amp;' contains 'a', the private-use twin does not)."""
+        return self.r.choice(self.raw)
 
     def sarg(self) -> str:
         """A string-valued filter argument: data or plain literal."""
@@ -61,7 +69,7 @@ class Gen:
             e = f"{r.choice(self.lists)}[{r.choice([0, 1, -1])}]"
         elif k < 0.55 and self.dicts:
             d = r.choice(self.dicts)
-            e = f"{d}[{self.svar()}]" if r.random() < 0.5 else f"{d}.name"
+            e = f"{d}[{self.cvar()}]" if r.random() < 0.5 else f"{d}.name"
         elif k < 0.65 and self.lists:
             e = f"{r.choice(self.lists)} | join: {self.sarg()}"
         elif k < 0.72 and self.lists:
@@ -77,6 +85,7 @@ class Gen:
             e = "'" + r.choice(["lit", "a b", "x;"]) + "'"
         elif k < 0.90 and self.nested:
             e = r.choice(self.nested)
+            self.last_nested = True
         else:
             e = self.svar()
         for _ in range(r.choice([0, 0, 1, 1, 2])):
@@ -104,7 +113,7 @@ class Gen:
             return f"{r.choice(self.lists)}[{r.choice([0, 1, -1])}]"
         if k < 0.74 and self.dicts:
             d = r.choice(self.dicts)
-            return f"{d}[{self.svar()}]" if r.random() < 0.5 else f"{d}.name"
+            return f"{d}[{self.cvar()}]" if r.random() < 0.5 else f"{d}.name"
         if k < 0.88:
             return '"' + r.choice(["a", " b ", "lt;", ""]) + "${" + self.svar() + " | " + r.choice(STRUCT_F) + "}" + r.choice(["", "x"]) + '"'
         return "'" + r.choice(["lit", "a b", "x;"]) + "'"
@@ -120,8 +129,10 @@ class Gen:
             return "{% echo " + self.sexpr(1) + " %}"
         if k < 0.33:
             v = self.fresh()
+            self.last_nested = False
             out = "{% assign " + v + " = " + self.sexpr() + " %}"
-            self.scope_strs.append(v)
+            if not self.last_nested:   # a list used later as a text argument is repr()ed: not twin-stable
+                self.scope_strs.append(v)
             return out
         if k < 0.43:
             v = self.fresh("c")
@@ -150,13 +161,13 @@ class Gen:
             lim = r.choice(["", " limit: 2", " reversed", " offset: 1"])
             return "{% for " + x + " in " + lst + lim + " %}" + body + "{% else %}" + self.text() + "{% endfor %}"
         if k < 0.60:
-            a, b = self.svar(), self.svar()
+            a, b = self.cvar(), self.cvar()
             cond = r.choice([f"{a} == {b}", f"{a} contains 'a'", f"{a}", f"{a} != blank", f"{a} and {b}"])
             tag = r.choice(["if", "unless"])
             return "{% " + tag + " " + cond + " %}" + self.block(depth + 1) + "{% else %}" + self.block(depth + 1) + "{% end" + tag + " %}"
         if k < 0.64:
-            a = self.svar()
-            return ("{% case " + a + " %}{% when 'a' %}" + self.block(depth + 1) + "{% when " + self.svar() + " %}"
+            a = self.cvar()
+            return ("{% case " + a + " %}{% when 'a' %}" + self.block(depth + 1) + "{% when " + self.cvar() + " %}"
                     + self.block(depth + 1) + "{% else %}" + self.block(depth + 1) + "{% endcase %}")
         if k < 0.74:
             name = self.partial(depth)
@@ -202,12 +213,15 @@ class Gen:
             return "{% with " + a + ": " + self.pexpr() + " %}" + body + "{% endwith %}"
         if k < 0.95:
             v = self.fresh()
-            lines = ["echo " + self.sexpr(1), "assign " + v + " = " + self.sexpr(1), "echo " + v,
-                     "if " + self.svar(), "echo " + self.svar() + " | upcase", "endif"]
-            self.scope_strs.append(v)
+            first = "echo " + self.sexpr(1)
+            self.last_nested = False
+            lines = [first, "assign " + v + " = " + self.sexpr(1), "echo " + v,
+                     "if " + self.cvar(), "echo " + self.svar() + " | upcase", "endif"]
+            if not self.last_nested:
+                self.scope_strs.append(v)
             return "{% liquid\n" + "\n".join(lines) + "\n%}"
         if k < 0.97:
-            return "{{ " + self.svar() + " if " + self.svar() + " else " + self.sexpr(1) + " }}"
+            return "{{ " + self.svar() + " if " + self.cvar() + " else " + self.sexpr(1) + " }}"
         if self.dicts:
             self.wild = True
             return "{{ " + r.choice(self.dicts) + " }}"
